@@ -174,7 +174,7 @@ class C07:
         comp = x[2][0]
         gens = list(comp[3])
         elt = comp[2]
-        if shape is None and len(gens) == 1 and elt[0] == "comp" and elt[1] == "list" and len(elt[3]) == 1:
+        if len(gens) == 1 and elt[0] == "comp" and elt[1] == "list" and len(elt[3]) == 1:
             gens, elt = gens + list(elt[3]), elt[2]  # nested rows
         elif shape is None or len(gens) != 2 or comp[1] != "list":
             return None
@@ -461,6 +461,18 @@ class C07:
                 elif it[0] == "call" and it[1] == ("ext", "numpy.setdiff1d") and len(it[2]) == 2 and not it[3]:
                     ar = it[2][0]
                     good = ar == ("call", ("ext", "numpy.arange"), (n,), ()) and it[2][1] == sel
+                    continue
+                elif (it[0] == "bin" and it[1] == "-") or (it[0] == "call" and it[1][0] == "attr" and it[1][2] == "difference" and len(it[2]) == 1 and not it[3]):
+                    # set(range(n)) - set(paired) / set(range(n)).difference(paired), the paired indices as array, list or set
+                    whole, minus = (it[2], it[3]) if it[0] == "bin" else (it[1][1], it[2][0])
+                    if whole[0] == "call" and whole[1] in (("builtin", "set"), ("builtin", "frozenset")) and len(whole[2]) == 1 and not whole[3]:
+                        whole = whole[2][0]
+                    else:
+                        continue
+                    while minus[0] == "call" and not minus[3] and ((minus[1] in (("builtin", "set"), ("builtin", "frozenset"), ("builtin", "list"), ("builtin", "tuple"))
+                                                                      and len(minus[2]) == 1) or (minus[1][0] == "attr" and minus[1][2] == "tolist" and not minus[2])):
+                        minus = minus[2][0] if minus[1][0] == "builtin" else minus[1][1]
+                    good = whole in (("call", ("builtin", "range"), (n,), ()), ("call", ("builtin", "range"), (("const", 0), n), ())) and minus == sel
                     continue
                 if U is None or not (U[0] == "call" and U[1] == ("ext", "numpy.ones") and U[2] and U[2][0] == n):
                     continue
